@@ -727,7 +727,12 @@ impl EliasFanoBuilder {
     /// Creates a builder for an [`EliasFano`] containing
     /// `n` numbers smaller than or equal to `u`.
     pub fn new(n: usize, u: usize) -> Self {
-        let l = if n > 0 && u >= n {
+        let l = if n == 0 {
+            // There are no values, so any width will do: we choose the largest
+            // one so that the upper-bits vector has at most two bits, rather
+            // than u + 1 (which overflows for u == usize::MAX).
+            usize::BITS as usize - 1
+        } else if u >= n {
             // u as f64 can round up to 2^64: the width must stay below the
             // word size, as values are shifted by it.
             Ord::min(
@@ -893,7 +898,12 @@ impl EliasFanoConcurrentBuilder {
     /// Creates a concurrent builder for a sequence containing `n` nonnegative
     /// numbers smaller than or equal to `u`.
     pub fn new(n: usize, u: usize) -> Self {
-        let l = if n > 0 && u >= n {
+        let l = if n == 0 {
+            // There are no values, so any width will do: we choose the largest
+            // one so that the upper-bits vector has at most two bits, rather
+            // than u + 1 (which overflows for u == usize::MAX).
+            usize::BITS as usize - 1
+        } else if u >= n {
             // u as f64 can round up to 2^64: the width must stay below the
             // word size, as values are shifted by it.
             Ord::min(
